@@ -1382,23 +1382,103 @@ func runC14SpecialKeys(c *Ctx) {
 		c.ok("(*RuleAction).checkAction|with: keys stored outside Inputs", fn.Pos(), "the parser keeps every with: key in Inputs")
 		return
 	}
-	read := map[string]bool{}
-	eachInstr(fn, func(_ *ssa.BasicBlock, _ int, in ssa.Instruction) {
-		if fa, ok := in.(*ssa.FieldAddr); ok {
-			read[fieldAddrName(fa)] = true
+	// (a) the loop that looks the required inputs up in exec.Inputs also consults the special fields
+	var reqLoop map[*ssa.BasicBlock]bool
+	for _, h := range loopHeaders(fn) {
+		body := naturalLoop(h)
+		rangesMeta, looksUpExec := false, false
+		for b := range body {
+			for _, in := range b.Instrs {
+				if rg, ok := in.(*ssa.Range); ok {
+					if f, _ := fieldLoad(rg.X); f == "ActionMetadata.Inputs" {
+						rangesMeta = true
+					}
+				}
+				if lk, ok := in.(*ssa.Lookup); ok && lk.CommaOk {
+					if f, _ := fieldLoad(lk.X); f == "ExecAction.Inputs" {
+						looksUpExec = true
+					}
+				}
+			}
 		}
-	})
-	var missing []string
-	for f := range special {
-		if !read[f] {
-			missing = append(missing, f)
+		// the Range instruction itself sits in the preheader: accept a loop whose Next iterates it
+		if !rangesMeta {
+			for b := range body {
+				for _, in := range b.Instrs {
+					if nx, ok := in.(*ssa.Next); ok {
+						if rg, ok := nx.Iter.(*ssa.Range); ok {
+							if f, _ := fieldLoad(rg.X); f == "ActionMetadata.Inputs" {
+								rangesMeta = true
+							}
+						}
+					}
+				}
+			}
+		}
+		if rangesMeta && looksUpExec {
+			reqLoop = body
 		}
 	}
-	sort.Strings(missing)
-	if len(missing) == 0 {
-		c.ok("(*RuleAction).checkAction|with: keys stored outside Inputs", fn.Pos(), "Args and Entrypoint are consulted when required inputs are looked for")
+	if reqLoop == nil {
+		c.anchorMissing("loop over ActionMetadata.Inputs that looks the input up in ExecAction.Inputs")
 	} else {
-		c.bad("(*RuleAction).checkAction|with: keys stored outside Inputs", fn.Pos(), "parseStep stores with.args / with.entrypoint in "+strings.Join(missing, ", ")+", which checkAction never reads: an action that declares a required input of that name always gets \"missing input\"")
+		read := map[string]bool{}
+		for b := range reqLoop {
+			for _, in := range b.Instrs {
+				if fa, ok := in.(*ssa.FieldAddr); ok {
+					read[fieldAddrName(fa)] = true
+				}
+			}
+		}
+		var missing []string
+		for f := range special {
+			if !read[f] {
+				missing = append(missing, f)
+			}
+		}
+		sort.Strings(missing)
+		if len(missing) == 0 {
+			c.ok("(*RuleAction).checkAction|with: keys stored outside Inputs", fn.Pos(), "Args and Entrypoint are consulted where required inputs are looked for")
+		} else {
+			c.bad("(*RuleAction).checkAction|with: keys stored outside Inputs", fn.Pos(), "parseStep stores with.args / with.entrypoint in "+strings.Join(missing, ", ")+", which the search for missing required inputs never reads: an action that declares a required input of that name always gets \"missing input\"")
+		}
+	}
+	// (b) the other direction: a special key the action does not declare is reported (for actions that are not Docker
+	// container actions, where args and entrypoint are ordinary inputs): a reporting call controlled by a look-up of
+	// the constant names in the declared inputs
+	reported := false
+	for _, h := range loopHeaders(fn) {
+		body := naturalLoop(h)
+		looksUpMeta, reports, consts := false, false, map[string]bool{}
+		for b := range body {
+			for _, in := range b.Instrs {
+				if lk, ok := in.(*ssa.Lookup); ok && lk.CommaOk {
+					if f, _ := fieldLoad(lk.X); f == "ActionMetadata.Inputs" {
+						looksUpMeta = true
+					}
+				}
+				if call, ok := in.(ssa.CallInstruction); ok {
+					if f := staticCallee(call.Common()); f != nil && FuncName(f) == "(*RuleBase).Errorf" {
+						reports = true
+					}
+				}
+			}
+		}
+		eachInstr(fn, func(_ *ssa.BasicBlock, _ int, in ssa.Instruction) {
+			if st, ok := in.(*ssa.Store); ok {
+				if s, ok := constString(st.Val); ok && (s == "args" || s == "entrypoint") {
+					consts[s] = true
+				}
+			}
+		})
+		if looksUpMeta && reports && consts["args"] && consts["entrypoint"] {
+			reported = true
+		}
+	}
+	if reported {
+		c.ok("(*RuleAction).checkAction|undeclared special keys", fn.Pos(), "args and entrypoint are looked up in the declared inputs and reported when absent")
+	} else {
+		c.bad("(*RuleAction).checkAction|undeclared special keys", fn.Pos(), "with.args / with.entrypoint are never compared with the declared inputs: for an action that is not a Docker container action an undeclared `args` is not reported")
 	}
 }
 
